@@ -290,9 +290,14 @@ package resolve
 // C18 (partial): what npmRequirements records for a bundled package. The
 // version it invents has the mangled name, the bundled version string and is
 // concrete; the bundle remembers the package it derives from; its bundling
-// parent gets a requirement on exactly that package and version string; the
-// version stored in bundledVersions has the bundle's key.
+// parent — the bundle whose path is this one's without its last element, or
+// the root — gets a requirement on exactly that package and version string;
+// the version stored in bundledVersions has the bundle's key.
+// mangledName (fmt.Sprintf over the root and the path) is used by symbol.
+//@ opaque mangledName
 //@ func (*APIClient).npmRequirements
+//@   assert at "parentName := root.Name": mangled == mangledName(root, pkgs)
+//@   assert at "parentBundle, ok := allDeps[parentName]": ite(len(pkgs) > 1, parentName == mangledName(root, pkgs[:len(pkgs)-1]), parentName == root.Name)
 //@   assert at "parentName := root.Name": allDeps[mangled].vk == bundleVK && allDeps[mangled].originalName == b.Name
 //@   assert at "parentName := root.Name": bundleVK.PackageKey.System == NPM && bundleVK.PackageKey.Name == mangled && bundleVK.VersionType == Concrete && bundleVK.Version == b.Version
 //@   assert at "allDeps[parentName] = parentBundle": len(parentBundle.deps) >= 1 && parentBundle.deps[len(parentBundle.deps)-1].VersionKey.PackageKey == bundleVK.PackageKey && parentBundle.deps[len(parentBundle.deps)-1].VersionKey.Version == bundleVK.Version && parentBundle.deps[len(parentBundle.deps)-1].VersionKey.VersionType == Requirement
